@@ -54,6 +54,44 @@ def run(ctx):
                % (short(badp_.sub.elts[0], 10) if badp_ else '', ' & '.join(badp_.cond_src())[-100:] if badp_ else ''),
                construct='_do_partial_latex_encode_step: kept length')
 
+    # ---- R04w: what the step reports as consumed ends where the copied text ends
+    ctx.rule('R04w', 'PartialLatexToLatexEncoder: a keeping return (n, text) whose text copies the input up to s[..:END] reports '
+                     'n = END - pos consumed characters (the rule is asked at pos, so consumption starts there -- including the '
+                     'blanks the token reader skipped and that are copied as the token\'s pre_space): otherwise the input '
+                     'between pos+n and END is copied AND encoded again', 1)
+    from .. import affine as _aff
+    pp_ = [a_.arg for a_ in pst_.args.args]
+    n_w_ = 0
+    for c in prc_:
+        v_ = symex.expand(c.sub, c.env)
+        if not (isinstance(v_, ast.Tuple) and len(v_.elts) == 2):
+            continue
+        sl_ = [x_ for x_ in ast.walk(v_.elts[1]) if isinstance(x_, ast.Subscript) and isinstance(x_.slice, ast.Slice)
+               and isinstance(x_.value, ast.Name) and len(pp_) >= 3 and x_.value.id == pp_[1] and x_.slice.upper is not None]
+        if not sl_:
+            continue
+        n_w_ += 1
+        try:
+            d_ = _aff.diff(ast.BinOp(left=v_.elts[0], op=ast.Add(), right=ast.Name(id=pp_[2], ctx=ast.Load())),
+                           sl_[-1].slice.upper)
+            okw = d_ == (0, {})
+        except _aff.NotAffine:
+            okw = None
+        if okw is None:
+            ctx.unknown('R04w', pmod_, c.node, 'cannot compare %s with the end of %s' % (short(v_.elts[0], 40), short(sl_[-1], 40)),
+                        construct='_do_partial_latex_encode_step: consumed count')
+            continue
+        ctx.decide('R04w', okw, pmod_, c.node, 'consumed count ends where the copied text ends',
+                   'the partial encoder copies %s but reports %s characters consumed from %s: that is not %s - %s, so when the '
+                   'token reader skipped blanks before the token (a kept blank, keep_latex_chars containing \' \') the end of '
+                   'the token is both copied and encoded again (`a \\%% b` gives a doubled percent sign)'
+                   % ('a slice of the input', short(c.sub.elts[0], 40) if isinstance(c.sub, ast.Tuple) else short(c.sub, 40),
+                      pp_[2], 'the end of that slice', pp_[2]),
+                   construct='_do_partial_latex_encode_step: consumed count')
+    if not n_w_:
+        ctx.unknown('R04w', pmod_, pst_, 'no keeping return that copies a slice of the input found',
+                    construct='_do_partial_latex_encode_step: consumed count')
+
     # ---- R04o: the result is the accumulated output object on every path
     ctx.rule('R04o', 'unicode_to_latex() returns the accumulated output (the latex_string_class instance it filled) on every '
                      'path: no shortcut hands back the input or another type', 1)
@@ -93,6 +131,29 @@ def run(ctx):
                             construct='%s: closure over loop variable %s' % (q_, nm_))
     ctx.holds('R04q', m, None, 'no closure over a loop variable outlives its iteration in pylatexenc.latexencode '
                                '(built-in example flagged)', construct='late-binding closure scan', trivial=True)
+    # ---- R04v: a callable supplied by the user is consulted for every occurrence
+    ctx.rule('R04v', 'no function of the encoder wraps a callable it was handed (unknown_char_policy, a rule callable) in a memo '
+                     '(a nested function that stores the callable\'s result in a container and answers from it): the policy is '
+                     'asked for every occurrence of an unknown character, so encoding a concatenation is the concatenation of '
+                     'the encodings for policies that number, collect or depend on settings (grules.memoised_callables; '
+                     'exercised on a built-in example on every run)', 1)
+    ex2_ = ast.parse('def wrap(fn):\n    seen = {}\n    def g(ch):\n        if ch not in seen:\n            seen[ch] = fn(ch)\n'
+                     '        return seen[ch]\n    return g\n')
+    _sp(ex2_)
+    if len(list(_gr2.memoised_callables(ex2_.body[0]))) != 1:
+        raise AnalysisError('R04v: the memoised-callable rule no longer fires on its built-in example')
+    for mod_ in repo.modules.values():
+        if not mod_.name.startswith('pylatexenc.latexencode'):
+            continue
+        for q_, f_ in sorted(mod_.functions.items()):
+            for g_, st_, c_ in _gr2.memoised_callables(f_):
+                ctx.refuted('R04v', mod_, st_, '%s: the nested function at line %d stores the result of the callable `%s` it was handed '
+                            '(%s) and answers later calls from that store: a user-supplied unknown_char_policy is asked once '
+                            'per character, not once per occurrence -- a policy that numbers or collects the unknown characters '
+                            'gives, for "ab" + "ab", something else than twice what it gives for "ab"'
+                            % (q_, g_.lineno, c_.func.id, short(st_, 50)), construct='%s: memo around %s' % (q_, c_.func.id))
+    ctx.holds('R04v', m, None, 'no memo around a supplied callable in pylatexenc.latexencode (built-in example flagged)',
+              construct='memoised callable scan', trivial=True)
     # ---- R04m (C13 R13h); the module-state rule of C09 is R04g above
     ctx.rule('R04m', 'nothing on the unknown-character path can raise except the fail policy: no library call that is '
                      'partial on characters (unicodedata.name without default) (C13 R13h)', 1)
